@@ -99,6 +99,7 @@ def run(ctx):
         cov.update({"evaluations": 0, "distinct_nontrivial": 0})
     else:
         bad = 0
+        bad_int = 0
         bounded = 0
         nontrivial = 0
         for i, f in enumerate(fens):
@@ -128,12 +129,22 @@ def run(ctx):
             if e_eval not in ("0", "PANIC"):
                 nontrivial += 1
             if probs:
-                bad += 1
-                if bad <= 4:
-                    rp = C.write_replay(prop, {"kind": "evaluation", "fen": f, "mirror_fen": mirror_fen(f),
-                                               "swapped_fen": swap_fen(f), "problems": probs,
-                                               "replay_cmd": "printf '%s\\n' | %s verif eval" % (f, C.ENGINE)})
-                    violations.append({"replay": rp})
+                # the VALUE of the evaluation is not fixed by the property, only its two symmetries (judged on the engine alone: the
+                # entries marked PROPERTY); engine = model on the value is the correspondence behind C17_mirror / C17_antisym
+                is_prop = any(p_[0].startswith("PROPERTY") for p_ in probs)
+                if is_prop:
+                    bad += 1
+                else:
+                    bad_int += 1
+                if (is_prop and bad <= 4) or (not is_prop and bad_int <= 2):
+                    payload = {"kind": "evaluation", "fen": f, "mirror_fen": mirror_fen(f),
+                               "swapped_fen": swap_fen(f), "problems": probs,
+                               "replay_cmd": "printf '%s\\n' | %s verif eval" % (f, C.ENGINE)}
+                    if not is_prop:
+                        payload["broken"] = ("correspondence engine evaluation = model/Eval.v (the theorems of props/C17.v are about the model); both "
+                                             "symmetries hold on the engine for this position")
+                    rp = C.write_replay(prop, payload)
+                    violations.append({"replay": rp, "no_input": not is_prop})
         cov["evaluations"] = len(allf)
         cov["distinct_nontrivial"] = nontrivial
         cov["positions"] = len(fens)
